@@ -43,6 +43,14 @@ AlphaFidelityQ ==
    \cup { E(n, "l", 777, 4, 0, tg) : n \in {<<"b">>, <<"s","l">>, <<"","","a">>, <<"s">>}, tg \in { <<"a">>, <<"..","a">>, <<"nowhere">> } }
    \cup { E(<<"pax_global_header">>, "g", 644, 2, 0, <<>>), E(<<"a">>, "p", 644, 2, 0, <<>>), E(<<"b">>, "h", 644, 2, 0, <<"a">>) }
 
+\* --- privilege alphabet (C15, unprivileged caller): read-only files overwritten, directory modes without w / x / r ---
+MCTrue == TRUE
+MCFalse == FALSE
+AlphaPriv ==
+   { E(n, "f", m, 2, c, <<>>) : n \in { <<"a">>, <<"s","a">>, <<"s","t","a">> }, m \in {644, 400, 0}, c \in {1, 2} }
+   \cup { E(n, "d", m, 3, 0, <<>>) : n \in { <<"s","">>, <<"s","t","">> }, m \in {755, 500, 300, 600, 0} }
+   \cup { E(<<"b">>, "l", 777, 4, 0, <<"a">>), E(<<"s","l">>, "l", 777, 4, 0, <<"..","a">>) }
+
 \* --- allow-list alphabet (C04 with AllowSymlinkTarget): A/w is allow-listed ---
 MCAllowW == { <<"A","w">> }
 AlphaAllow ==
